@@ -57,6 +57,18 @@ def outToJson {χ : Type} (ctx : χ → Json) (probes : List Action) : Except Er
            ("on_actions", ofList (fun a => resToJson (x.reward.eval (.one a))) x.actions),
            ("on_probes", ofList (fun a => resToJson (x.reward.eval a)) probes)]) ints)]
 
+/-- per interaction and per header name: what `context[name]` gives (`DropOne.__getitem__`) -/
+def lookups (hdr : List String) (ind : Int) (r : Except Err (List (Interaction (List Label)))) : Json :=
+  match r with
+  | .error _ => Json.null
+  | .ok ints => ofList (fun (x : Interaction (List Label)) =>
+      match normIdx ind (x.context.length + 1) with
+      | none => Json.null
+      | some i => obj [("headers", ofList Json.str (featureHeaders i hdr)),
+          ("by_name", ofList (fun nm => match featureByName i hdr x.context nm with
+            | .ok v => obj [("v", labelToJson v)]
+            | .error e => obj [("err", Json.str (errName e))]) hdr)]) ints
+
 def parseStep (j : Json) : Except String C09.Step := do
   match j with
   | .arr #[a, b] => pure (.skip (← nat a) (← nat b))
@@ -79,7 +91,12 @@ def handleText (op : String) (req : Json) (given : Option LType) (probes : List 
     let delim ← nat (← field req "delim")
     let hdr ← bool (← field req "header")
     let lc ← parseLabelCol (← field req "label")
-    pure (obj [("model", outToJson (ofList labelToJson) probes (csvSim delim hdr lc given lines))])
+    let out := csvSim delim hdr lc given lines
+    let look := match C12.csvReaderFix (C12.excel delim) hdr lines, lc with
+      | .ok (some h, _), .index i => lookups (h.map textStr) i out
+      | .ok (some h, _), .name nm => (match headerIndex h nm with | some i => lookups (h.map textStr) (i : Int) out | none => Json.null)
+      | _, _ => Json.null
+    pure (obj [("model", outToJson (ofList labelToJson) probes out), ("lookup", look)])
   | "svm_text" =>
     let lines := (← strList (← field req "lines")).map textOf
     let manik ← bool (← field req "manik")
@@ -89,7 +106,12 @@ def handleText (op : String) (req : Json) (given : Option LType) (probes : List 
     let attrs := (← strList (← field req "attr_lines")).map textOf
     let data := (← strList (← field req "data_lines")).map textOf
     let lc ← parseLabelCol (← field req "label")
-    pure (obj [("model", outToJson (ofList labelToJson) probes (arffDenseSim lc given attrs data))])
+    let out := arffDenseSim lc given attrs data
+    let look := match C12.arffAttrs true [] attrs, lc with
+      | .ok as, .index i => lookups (as.map (fun a => textStr a.1)) i out
+      | .ok as, .name nm => (match headerIndex (as.map (·.1)) nm with | some i => lookups (as.map (fun a => textStr a.1)) (i : Int) out | none => Json.null)
+      | _, _ => Json.null
+    pure (obj [("model", outToJson (ofList labelToJson) probes out), ("lookup", look)])
   | _ => throw s!"unknown op {op}"
 
 /-- request: {"op":"pairs"|"dense"|"sparse", "given":…, "take":[positions]|null, "rows":…, "probes":[actions]};
@@ -119,8 +141,11 @@ def handle (req : Json) : Except String Json := do
   | "dense" =>
     let ind ← int (← field req "ind")
     let rs ← rows.mapM (fun r => do (← arr r).mapM parseLabel)
-    pure (obj [("model", outToJson (ofList labelToJson) probes
-      (match res with | some (k, steps) => simDenseS given k steps ind rs | none => simDense given take ind rs))])
+    let out := match res with | some (k, steps) => simDenseS given k steps ind rs | none => simDense given take ind rs
+    let look ← match req.getObjVal? "header" with
+      | .ok h => do pure (lookups (← strList h) ind out)
+      | .error _ => pure Json.null
+    pure (obj [("model", outToJson (ofList labelToJson) probes out), ("lookup", look)])
   | "sparse" =>
     let key ← parseVal (← field req "key")
     let rs ← rows.mapM (fun r => do (← arr r).mapM (fun kv => do
